@@ -91,11 +91,49 @@ async def verif_runner(es, params):
     return res
 
 
+class VerifCompletingRunner:
+    """A runner that determines completion itself (like the wait-for-* and scroll-style runners): it reports `completed` once a client
+    has called it `complete_after` times. Single-client tasks only (the registered instance is shared by all clients)."""
+
+    def __init__(self):
+        self.calls = 0
+        self.complete_after = None
+
+    def reset(self):
+        self.calls, self.complete_after = 0, None
+
+    async def __aenter__(self):
+        return self
+
+    async def __aexit__(self, *a):
+        return False
+
+    async def __call__(self, es, params):
+        self.calls += 1
+        self.complete_after = params.get("complete_after")
+        return await verif_runner(es, params)
+
+    @property
+    def completed(self):
+        return self.complete_after is not None and self.calls >= self.complete_after
+
+    @property
+    def percent_completed(self):
+        return None  # it knows when it is done, not how far it is: the schedule's own progress is reported
+
+    def __repr__(self):
+        return "verif-op-completing"
+
+
+COMPLETING = VerifCompletingRunner()
+
+
 def ensure_registered(cfg):
     global _registered
     if not _registered:
         runner.register_default_runners(cfg)
         runner.register_runner("verif-op", verif_runner, async_runner=True)
+        runner.register_runner("verif-op-completing", COMPLETING, async_runner=True)
         track_params.register_param_source_for_name("verif-source", VerifParamSource)
         _registered = True
 
@@ -179,6 +217,13 @@ def gen_case(rng, want=None):
                 if step * nreq > 3000 and mode == "iter":
                     spec["warmup_iterations"] = min(spec["warmup_iterations"], 2)
                     spec["iterations"] = max(1, int(3000 / step) - spec["warmup_iterations"])
+        if ntasks == 1 and clients == 1 and mode == "iter" and rng.random() < 0.25:
+            # a runner that determines completion itself, on a task with explicit iterations: the iterations decide (the runner would
+            # only report completion three requests later)
+            spec["op_type"] = "verif-op-completing"
+            for lst in reqs:
+                for r in lst:
+                    r["complete_after"] = spec["warmup_iterations"] + spec["iterations"] + 3
         spec["requests"] = reqs
         spec["svc"] = {"mode": svc_mode, "base": base, "err": err_mode, "seed": rng.randint(0, 1 << 30)}
         tasks.append(spec)
@@ -232,7 +277,7 @@ def build_track(case):
         params = {"requests": t["requests"]}
         if "finite" in t:
             params["finite"] = t["finite"]
-        op = track.Operation(f"op-{t['name']}", "verif-op", params=params, param_source="verif-source")
+        op = track.Operation(f"op-{t['name']}", t.get("op_type", "verif-op"), params=params, param_source="verif-source")
         tp = {}
         if "target_throughput" in t:
             tp["target-throughput"] = t["target_throughput"]
@@ -261,6 +306,7 @@ def build_track(case):
 def run_case(case, scratch):
     """Executes the case; returns the harness (with .rec, .sim.log, .clock) and the exception the adapter raised (or None)."""
     SCRIPT_ATTEMPTS.clear()
+    COMPLETING.reset()
     _global_random.seed(case["poisson_seed"])  # PoissonScheduler draws from the global generator
     h = execharness.Harness(scratch, service_script(case), pc_offset=case["pc_offset"])
     try:
@@ -280,6 +326,8 @@ def features(case):
         f.add("svc-" + t["svc"]["mode"])
         if t["svc"]["err"] != "none":
             f.add("err-" + t["svc"]["err"])
+        if t.get("op_type") == "verif-op-completing":
+            f.add("completion-aware-runner-with-iterations")
         if t.get("ramp_up_time_period"):
             f.add("ramp-up")
         if t.get("schedule") == "poisson" and ("target_throughput" in t or "target_interval" in t):
